@@ -215,8 +215,8 @@ var c20Helpers = []c20Helper{
 	}},
 	{"MarshalJSON", []string{"top", "list", "prop"}, func(it ap.Item) string { _, _ = ap.MarshalJSON(it); return "" }},
 	{"GobEncode", []string{"top", "list", "prop"}, func(it ap.Item) string { _, _ = ap.GobEncode(it); return "" }},
-	{"CollectionPath.IRI/Of/AddTo", []string{"top"}, func(it ap.Item) string {
-		for _, c := range []ap.CollectionPath{ap.Inbox, ap.Likes, ap.Replies, ap.Followers} {
+	{"CollectionPath.IRI/Of/AddTo", []string{"top", "collection-prop"}, func(it ap.Item) string {
+		for _, c := range []ap.CollectionPath{ap.Inbox, ap.Outbox, ap.Liked, ap.Following, ap.Followers, ap.Likes, ap.Shares, ap.Replies} {
 			_ = c.IRI(it)
 			_ = c.Of(it)
 			_, _ = c.AddTo(it)
@@ -231,6 +231,9 @@ func c20Place(n c20Nil, pos string) ap.Item {
 	switch pos {
 	case "list":
 		return ap.ItemCollection{ap.IRI("https://example.com/first"), n.it, c20Real()}
+	case "collection-prop":
+		// the nil-like item as every collection property of an otherwise valid actor
+		return &ap.Actor{ID: "https://example.com/actors/jdoe", Type: ap.PersonType, Inbox: n.it, Outbox: n.it, Liked: n.it, Following: n.it, Followers: n.it, Likes: n.it, Shares: n.it, Replies: n.it}
 	case "list1":
 		return ap.ItemCollection{n.it}
 	case "prop-list1":
